@@ -164,7 +164,7 @@ def _pick_dt(rng, cfg, style, model, now_us):
 
 
 def generate(seed, prop, tier, index=0):
-    if index % 12 == 5:
+    if index % 6 == 5:
         # secondary driver: the machine lives inside a real MagicRobot (engine ROBOT executes the plan)
         from engines import robot
         return robot.generate_integration(seed, prop, tier, index)
